@@ -336,3 +336,10 @@ def s_try_for_each(ex, callee, a, env):
             return r
         if isinstance(r, Adt) and r.ty == 'ControlFlow' and r.variant == 'Break':
             return r
+
+
+@std_native(r'^<(std::vec::)?Vec<.*> as PartialEq(<.*>)?>::(eq|ne)$', 'Vec ==')
+def s_vec_eq(ex, callee, a, env):
+    from .natives import values_equal
+    r = values_equal(ex, a[0], a[1])
+    return Not(r) if callee.endswith('ne') else r
